@@ -424,7 +424,7 @@ def blacklist_case(ctx, i, terms, info):
             ctx.oracle_fail("blacklisted-child-unpacks-to-other-caps", "child %r read back on the blacklisting gateway reports %r / %r" % (name, n1.get_write_uri(), n1.get_readonly_uri()),
                             case=dict(case, name=name), expected=[o0[1], o0[2]], observed=[n1.get_write_uri(), n1.get_readonly_uri()])
     # ---- model: a blacklist wrapper is transparent to the packer
-    if len(kids) <= 4 and i < ctx.n(10, 150):
+    if len(kids) <= 3 and i < ctx.n(6, 150):
         rws = [D.node_obs(n)[1] or b"" for n in plain]
         t = ("let cls := %s in let nrm := %s in let aes := %s in let kids := %s in "
              "match pack_children nrm bytes dumps_raw aes kids (Some %s) false with inl _ => false | inr d => list_N_eqb d %s end"
@@ -591,7 +591,7 @@ def run(ctx):
     for i in range(ctx.n(45, 600)):
         legacy_case(ctx, i, terms, info)
     nleg = len(terms)
-    for i in range(ctx.n(60, 600)):
+    for i in range(ctx.n(45, 600)):
         blacklist_case(ctx, i, terms, info)
     refuted_witnesses(ctx)
     bad = ctx.coq_check(IMPORTS, terms, preamble=PREAMBLE, tag="c19", shard=max(18, (len(terms) + 6) // 7))
